@@ -23,7 +23,7 @@ from typing import Any
 
 VERIF = Path(__file__).resolve().parent.parent
 REPO_SRC = os.environ.get("VERIF_REPO_SRC", "/repo/src")
-EVIDENCE = VERIF / "evidence"
+EVIDENCE = Path(os.environ.get("VERIF_EVIDENCE_DIR") or VERIF / "evidence")  # seed runs write elsewhere
 REPLAYS = EVIDENCE / "replays"
 KNOWN = VERIF / "known_findings.json"
 PY = "/venv/bin/python"
@@ -270,7 +270,7 @@ def run_parent(mod: Any, tier: str, seed: int) -> int:
         "verdict": "violated" if new else ("inconclusive" if total.inconclusive else "held"),
         "inconclusive_reasons": total.inconclusive,
     }
-    EVIDENCE.mkdir(exist_ok=True)
+    EVIDENCE.mkdir(parents=True, exist_ok=True)
     (EVIDENCE / f"{pid}.json").write_text(json.dumps(evidence, indent=1) + "\n")
 
     if rc == 0 and total.inconclusive:
